@@ -51,8 +51,8 @@ def run(ctx):
                     for d in ("n", "g"):
                         cid = f"c{len(cases)}"
                         cases.append((cid, slot, [d, FC.hexbits(vb, ty)]))
-                        op = ("new" if d == "n" else "get") + ("64" if ty == "f64" else "32")
-                        mlines.append(f"{cid} {op} std {T.sexp_list(U)} {T.zlist(q['dim'])} {T.sexp(u['coef'])} {T.sexp(u['const'])} {vb}")
+                        op = "new" if d == "n" else "get"
+                        mlines.append(f"{cid} {ty} std ({op} {T.sexp_list(U)} {T.zlist(q['dim'])} {T.sexp(u['coef'])} {T.sexp(u['const'])} {vb})")
                         meta[cid] = (ty, bs, q["module"], u["name"], d, vname, vb, slot)
                 # published coefficient / constants
                 for d in ("c", "ka", "ks"):
@@ -114,11 +114,11 @@ def run(ctx):
         ty, bs, qm, un, d, *_ = meta[cid]
         if d == "c":
             u = t.unit(qm, un)
-            clines.append(f"{cid} coef{'64' if ty == 'f64' else '32'} {T.sexp(u['coef'])}")
+            clines.append(f"{cid} {ty} std (coef {T.sexp(u['coef'])})")
         elif d in ("ka", "ks"):
             u = t.unit(qm, un)
             if u["const"] is not None:
-                clines.append(f"{cid} coef{'64' if ty == 'f64' else '32'} {T.sexp(u['const'])}")
+                clines.append(f"{cid} {ty} std (coef {T.sexp(u['const'])})")
     cmodel = coqbuild.run_model(clines)
     coef_bad = []
     for cid, slot, args in cases:
@@ -167,8 +167,10 @@ def run(ctx):
     vm_lines = []
     exp = {}
     for l in sample:
-        cid, op, lib, U, d, coef, const, vb = convlib.split_model_line(l)
-        term = f"{op} LibStd {convlib.coq_cexprs(U)} {convlib.coq_zs(d)} {convlib.coq_cexpr(coef)} {convlib.coq_const(const)} {vb}"
+        cid, ty_, lib, (op, U, d, coef, const, vb) = convlib.split_model_line(l)
+        ctor = "RNew" if op == "new" else "RGet"
+        term = (f"run{'64' if ty_ == 'f64' else '32'} LibStd ({ctor} {convlib.coq_cexprs(U)} {convlib.coq_zs(d)} "
+                f"{convlib.coq_cexpr(coef)} {convlib.coq_const(const)} {convlib.coq_z(vb)})")
         vm_lines.append((cid, term))
         exp[cid] = model.get(cid)
     bad, out = coqbuild.vm_crosscheck(vm_lines, exp)
